@@ -3,6 +3,7 @@ package props
 import (
 	"fmt"
 	"go/ast"
+	"go/constant"
 	"go/parser"
 	"go/token"
 	"path/filepath"
@@ -35,7 +36,7 @@ func init() {
 			"CROW: cell i from values[i] with the builder reset between cells, the csv writer's error returned, header = field names in order, Close flushes. PAN5: every value-level TypeID has an arm.",
 		NotDecided: []string{
 			"byte-for-byte correctness of encoding/csv's quoting and of fastjson's escaping of the strings JSTR does not flag (library code)",
-			"sub-second precision of times (rendered as RFC3339) — the property names ints, floats, strings, NULL and containers",
+			
 		},
 		Assumptions: []string{"fastjson.Arena constructors and strconv render what they are given faithfully"},
 	})
@@ -73,6 +74,7 @@ func checkJSONValueArms(c *core.Ctx) {
 		return
 	}
 	c.SawFunc(key)
+	checkTimeLayout(c, "JARM", key, fn)
 	ids := typeIDs(p)
 	var tname, vname string
 	for _, f := range fn.Decl.Type.Params.List {
@@ -467,6 +469,7 @@ func checkCSVValueArms(c *core.Ctx) {
 		return
 	}
 	c.SawFunc(key)
+	checkTimeLayout(c, "CARM", key, fn)
 	ids := typeIDs(p)
 	vname := ""
 	for _, f := range fn.Decl.Type.Params.List {
@@ -842,4 +845,39 @@ func checkOutputNames(c *core.Ctx) {
 		})
 	}
 	c.Decide(badSet == "", "CROW", "outputs/formats/csv writer settings", 0, nSet+1, "the csv writer keeps byte-preserving settings", "string cells must survive byte for byte: "+badSet)
+}
+
+// checkTimeLayout: a Time is rendered with a layout that keeps the fractional seconds — the readers parse with
+// nanosecond precision and event times are compared at that precision, so a layout without the fraction prints
+// distinct values alike.
+func checkTimeLayout(c *core.Ctx, rule, key string, fn *core.FuncRef) {
+	info := fn.Info()
+	n, bad := 0, ""
+	ast.Inspect(fn.Decl.Body, func(nd ast.Node) bool {
+		call, ok := nd.(*ast.CallExpr)
+		if !ok || len(call.Args) != 1 {
+			return true
+		}
+		sel, ok := call.Fun.(*ast.SelectorExpr)
+		if !ok || sel.Sel.Name != "Format" {
+			return true
+		}
+		if t := info.TypeOf(sel.X); t == nil || t.String() != "time.Time" {
+			return true
+		}
+		n++
+		tv := info.Types[call.Args[0]]
+		if tv.Value == nil || tv.Value.Kind() != constant.String {
+			bad = fmt.Sprintf("%s: the layout %s is not a constant", c.Prog.Pos(call.Pos()), core.ExprStr(call.Args[0]))
+			return true
+		}
+		layout := constant.StringVal(tv.Value)
+		if !strings.Contains(layout, ".999999999") && !strings.Contains(layout, ".000000000") && !strings.Contains(layout, ",999999999") && !strings.Contains(layout, ",000000000") {
+			bad = fmt.Sprintf("%s: the layout %q drops the fractional seconds: times that differ below one second print alike", c.Prog.Pos(call.Pos()), layout)
+		} else if !strings.Contains(layout, "2006") || !strings.Contains(layout, "Z07") && !strings.Contains(layout, "-07") {
+			bad = fmt.Sprintf("%s: the layout %q drops the year or the zone offset", c.Prog.Pos(call.Pos()), layout)
+		}
+		return true
+	})
+	c.Decide(bad == "" && n >= 1, rule, key+"/time layout", fn.Decl.Pos(), n, "times are rendered with nanoseconds, year and zone offset", bad)
 }
